@@ -150,6 +150,36 @@ HAND = [
 ]
 
 
+def many_scopes(reuse):
+    """Scope 1 defines 12$ (and uses it); after ten ordinary labels scope 11 refers to 2$: with correct scoping that is
+    an undefined local (or, with ``reuse``, its own 2$)."""
+    items = [("loc", "12"), ("useloc", "12")]
+    for i in range(10):
+        items += [("lab", f"g{i}", ":"), ("loc", "1"), ("useloc", "1")]
+    if reuse:
+        items += [("loc", "2"), ("useloc", "2")]
+    else:
+        items += [("useloc", "2")]
+    items += [("lab", "tail", ":"), ("loc", "12"), ("useloc", "12"), ("loc", "2"), ("useloc", "2")]
+    return {"files": [items]}
+
+
+HAND += [
+    ("many-scopes-dangling", many_scopes(False)),
+    ("many-scopes-reuse", many_scopes(True)),
+    ("many-scopes-in-second-file", {"files": [many_scopes(True)["files"][0], many_scopes(False)["files"][0][:6] + [("useloc", "12")]]}),
+    ("extern-all-then-include-then-def", {"files": [[("ext", "all"), ("inc", 0), ("def", "x", "V1", "=")], [("use", "x"), ("use", "inner")]],
+                                          "aux": [[("def", "inner", "V2", "=="), ("def", "priv", "V3", "="), ("use", "priv")]]}),
+    ("extern-all-in-include-does-not-leak", {"files": [[("inc", 0), ("def", "y", "V1", "="), ("use", "y")], [("use", "y")]],
+                                             "aux": [[("ext", "all"), ("def", "z", "V2", "=")]]}),
+    ("extern-all-in-include-private-outside", {"files": [[("inc", 0), ("def", "y", "V1", "="), ("use", "y"), ("use", "z")], [("def", "y", "V3", "=="), ("use", "y"), ("use", "z")]],
+                                               "aux": [[("ext", "all"), ("def", "z", "V2", "=")]]}),
+    ("extern-then-included-export-then-def", {"files": [[("ext", "a"), ("inc", 0), ("def", "a", "V1", "=")], [("use", "a")]], "aux": [[("def", "a", "V2", "==")]]}),
+    ("extern-then-included-label-export-then-def", {"files": [[("ext", "a"), ("inc", 0), ("def", "a", "V1", "="), ("use", "a")]], "aux": [[("lab", "a", "::"), ("use", "a")]]}),
+    ("extern-then-included-extern-all", {"files": [[("ext", "a"), ("inc", 0), ("def", "a", "V1", "=")]], "aux": [[("ext", "all"), ("def", "a", "V2", "=")]]}),
+]
+
+
 def obligations(tier, seed):
     rnd = random.Random(1100 + seed)
     obs = []
